@@ -273,3 +273,21 @@ Definition sites_ok (gen : list (bytes * list (bytes * list (bytes * bytes)))) (
   | Some ss => forallb site_ok ss
   | None => false
   end.
+
+(* ---------- principal resolution (principalFromContext + buildConnContextFunc) ----------
+   A function of (principal source, the connection's address-derived principal, the header of
+   THIS request). conn_principal is what buildConnContextFunc stored in ConnContext.Principal:
+   the peer host (remote_addr), the PROXY source host (proxy_addr), or nothing (client_id, with
+   or without PROXY protocol). Nothing about earlier requests on the connection is an input. *)
+Inductive psource := SrcClientId | SrcRemoteAddr | SrcProxyAddr.
+
+Definition s_anon : bytes := codes "anonymous".
+
+Definition resolve_principal (is_blank : bytes -> bool) (trim : bytes -> bytes)
+                             (src : psource) (conn_host : bytes) (client_id : option bytes) : bytes :=
+  let conn_principal := match src with SrcClientId => [] | _ => conn_host end in
+  if negb (is_blank conn_principal) then trim conn_principal
+  else match client_id with
+       | Some c => if is_blank c then s_anon else c
+       | None => s_anon
+       end.
